@@ -61,6 +61,24 @@ theorem sub64_eq_sub {a b : Nat} (h : b ≤ a) (ha : a < 2^64) : sub64 a b = a -
 end CleanAux
 open CleanAux
 
+/-- what `beforeFirst` never changes (no hypothesis) -/
+theorem beforeFirst_frame (s s' : Base) (h : beforeFirst s = .ok s') :
+    s'.files = s.files ∧ s'.offBegin = s.offBegin ∧ s'.offEnd = s.offEnd ∧
+    s'.bufWords = s.bufWords ∧ s'.chunk.dataWords = s.chunk.dataWords ∧
+    s'.chunk.rest = [] ∧ s'.overflow = [] := by
+  unfold beforeFirst at h
+  split at h
+  · simp only [bfEmptyClears_true, if_true] at h
+    injection h with h; subst h
+    exact ⟨rfl, rfl, rfl, rfl, rfl, rfl, rfl⟩
+  · simp only [] at h
+    split at h
+    · cases h
+    · split at h
+      · cases h
+      · injection h with h; subst h
+        exact ⟨rfl, rfl, rfl, rfl, rfl, rfl, rfl⟩
+
 theorem beforeFirst_clean (s s' : Base) (h : beforeFirst s = .ok s')
     (hlt : s.offBegin < s.offEnd → s.offBegin < 2^64) :
     Clean s' ∧ s'.files = s.files ∧ s'.offBegin = s.offBegin ∧ s'.offEnd = s.offEnd ∧
@@ -169,24 +187,15 @@ theorem chunkEquiv_of_empty {c d : Chunk} (hc : c.rest = []) (hd : d.rest = []) 
 theorem beforeFirst_core (ign : Bool) (s t : Base) (hf : s.files = t.files) (hb : s.offBegin = t.offBegin)
     (he : s.offEnd = t.offEnd) (hw : s.bufWords = t.bufWords)
     (hp : s.offEnd ≤ s.offBegin ∨ (s.filePtr = t.filePtr ∧ s.fpos.isSome = t.fpos.isSome))
-    (hq : s.offEnd ≤ s.offBegin → (s.offCurr = t.offCurr ∧ s.filePtr = t.filePtr ∧ s.fpos = t.fpos) ∨ ign = true) :
-    ERel false (fun s' t' => EquivG ign s' t' ∧
-        (ign = false → s'.filePtr = t'.filePtr ∧ s'.fpos = t'.fpos)) (beforeFirst s) (beforeFirst t) := by
+    (hq : s.offEnd ≤ s.offBegin → ign = false → s.offCurr = t.offCurr) :
+    ERel false (EquivG ign) (beforeFirst s) (beforeFirst t) := by
   unfold beforeFirst
   rw [← hf, ← hb, ← he]
   by_cases hbe : bfEmpty s.offBegin s.offEnd = true
   · have hle : s.offEnd ≤ s.offBegin := by simpa [bfEmpty] using hbe
     rw [if_pos hbe, if_pos hbe]
     simp only [bfEmptyClears_true, if_true, ERel]
-    refine ⟨⟨⟨rfl, rfl, rfl, rfl, hw, ⟨rfl, fun h => absurd rfl h⟩, Or.inl hle⟩, ?_⟩, ?_⟩
-    · intro hi
-      rcases hq hle with h | h
-      · exact h.1
-      · rw [hi] at h; cases h
-    · intro hi
-      rcases hq hle with h | h
-      · exact h.2
-      · rw [hi] at h; cases h
+    exact ⟨⟨rfl, rfl, rfl, rfl, hw, ⟨rfl, fun h => absurd rfl h⟩, Or.inl hle⟩, hq hle⟩
   · have hlt : ¬ s.offEnd ≤ s.offBegin := by
       simp [bfEmpty] at hbe; omega
     rw [if_neg hbe, if_neg hbe]
@@ -208,9 +217,1601 @@ theorem beforeFirst_core (ign : Bool) (s t : Base) (hf : s.files = t.files) (hb 
           simp only []
           split
           · exact Or.inl rfl
-          · exact ⟨⟨⟨rfl, rfl, rfl, rfl, hw, ⟨rfl, fun h => absurd rfl h⟩, Or.inr ⟨rfl, rfl, rfl⟩⟩,
-              fun _ => rfl⟩, fun _ => ⟨rfl, rfl⟩⟩
+          · exact ⟨⟨rfl, rfl, rfl, rfl, hw, ⟨rfl, fun h => absurd rfl h⟩, Or.inr ⟨rfl, rfl, rfl⟩⟩,
+              fun _ => rfl⟩
+
+/-- `resetPartition` with its arithmetic kernels abstracted (same matchers) -/
+def rpGen (g1 g2 : Nat → Nat → Nat) (g3 g4 : Nat → Nat → Nat → Nat) (g5 g6 : Nat → Nat → Nat)
+    (F : Fmt) (s : Base) (rank nsplit : Nat) : Except Err Base :=
+  if nsplit = 0 then .error .div
+  else
+    let ntotal := totalSize s.files
+    let nstep := g2 (g1 ntotal nsplit) F.align
+    let ob := g3 nstep rank ntotal
+    let oe := g4 nstep rank ntotal
+    let s := { s with offBegin := ob, offEnd := oe, offCurr := ob }
+    if rpEmpty ob oe then
+      .ok (if rpEmptyClears then { s with chunk := s.chunk.clear, overflow := [] } else s)
+    else
+      let fp := filePtrOf s.files ob
+      let fpe := filePtrOf s.files oe
+      let oe' : Except Err Nat :=
+        if rpSnapEnd oe (fileOffset s.files fpe) then
+          if ¬ (fileOffset s.files fpe < oe) ∨ ¬ (fpe < s.files.length) then .error .check
+          else
+            resetPartition.match_3 (fun _ => Except Err Nat) (List.drop fpe s.files) (fun _ => Except.error Err.oob)
+              fun f _ =>
+              resetPartition.match_1 (fun _ => Except Err Nat)
+                (F.seekRecordBegin (List.drop (g5 oe (fileOffset s.files fpe)) f)) (fun e => Except.error e)
+                fun n _ => Except.ok (oe + n)
+        else .ok oe
+      resetPartition.match_5 (fun _ => Except Err Base) oe' (fun e => Except.error e) fun oe' =>
+        resetPartition.match_3 (fun _ => Except Err Base) (List.drop fp s.files) (fun _ => Except.error Err.oob)
+          fun f _ =>
+          let r : Except Err (Nat × Nat) :=
+            if rpSnapBegin ob (fileOffset s.files fp) then
+              let seekPos := g6 ob (fileOffset s.files fp)
+              resetPartition.match_1 (fun _ => Except Err (Nat × Nat)) (F.seekRecordBegin (List.drop seekPos f))
+                (fun e => Except.error e) fun n consumed => Except.ok (ob + n, seekPos + consumed)
+            else .ok (ob, 0)
+          resetPartition.match_1 (fun _ => Except Err Base) r (fun e => Except.error e) fun ob' pos =>
+            beforeFirst { s with offBegin := ob', offEnd := oe', filePtr := fp, fpos := some pos }
+
+attribute [local irreducible] rpStepRaw rpStepAlign rpBegin rpEnd rpSeekEnd rpSeekBegin in
+theorem resetPartition_eq_gen (F : Fmt) :
+    resetPartition F = rpGen rpStepRaw rpStepAlign rpBegin rpEnd rpSeekEnd rpSeekBegin F := by
+  delta resetPartition rpGen
+  rfl
+
+/-- `resetPartition` reads only `files` of the old state; `bufWords` and the chunk capacity are kept -/
+theorem rpGen_core (g1 g2 : Nat → Nat → Nat) (g3 g4 : Nat → Nat → Nat → Nat) (g5 g6 : Nat → Nat → Nat)
+    (F : Fmt) (s t : Base) (k n : Nat) (hf : s.files = t.files) (hb : s.bufWords = t.bufWords) :
+    ERel false (EquivG false) (rpGen g1 g2 g3 g4 g5 g6 F s k n) (rpGen g1 g2 g3 g4 g5 g6 F t k n) := by
+  unfold rpGen
+  rw [← hf]
+  by_cases hn : n = 0
+  · rw [if_pos hn, if_pos hn]; exact ERel.err _
+  · rw [if_neg hn, if_neg hn]
+    simp only []
+    split
+    · rename_i he
+      have hle : g4 (g2 (g1 (totalSize s.files) n) F.align) k (totalSize s.files)
+          ≤ g3 (g2 (g1 (totalSize s.files) n) F.align) k (totalSize s.files) := by
+        simp [rpEmpty] at he; omega
+      simp only [rpEmptyClears_true, if_true, ERel]
+      exact ⟨⟨rfl, rfl, rfl, rfl, hb, ⟨rfl, fun h => absurd rfl h⟩, Or.inl hle⟩, fun _ => rfl⟩
+    · split
+      · exact ERel.err _
+      · split
+        · exact ERel.err _
+        · split
+          · exact ERel.err _
+          · exact beforeFirst_core false _ _ rfl rfl rfl hb (Or.inr ⟨rfl, rfl⟩) (fun _ _ => rfl)
+
+theorem resetPartition_core (F : Fmt) (s t : Base) (k n : Nat) (hf : s.files = t.files)
+    (hb : s.bufWords = t.bufWords) :
+    ERel false (EquivG false) (resetPartition F s k n) (resetPartition F t k n) := by
+  rw [resetPartition_eq_gen]
+  exact rpGen_core _ _ _ _ _ _ F s t k n hf hb
+
+/-- what `resetPartition` keeps, and `Clean` (given that a non-empty result part starts below `2^64`) -/
+theorem rpGen_clean (g1 g2 : Nat → Nat → Nat) (g3 g4 : Nat → Nat → Nat → Nat) (g5 g6 : Nat → Nat → Nat)
+    (F : Fmt) (s s' : Base) (k n : Nat) (h : rpGen g1 g2 g3 g4 g5 g6 F s k n = .ok s')
+    (hlt : s'.offBegin < s'.offEnd → s'.offBegin < 2^64) :
+    Clean s' ∧ s'.files = s.files ∧ s'.bufWords = s.bufWords ∧ s'.chunk.dataWords = s.chunk.dataWords := by
+  unfold rpGen at h
+  by_cases hn : n = 0
+  · rw [if_pos hn] at h; cases h
+  · rw [if_neg hn] at h
+    simp only [] at h
+    split at h
+    · rename_i he
+      have hle : g4 (g2 (g1 (totalSize s.files) n) F.align) k (totalSize s.files)
+          ≤ g3 (g2 (g1 (totalSize s.files) n) F.align) k (totalSize s.files) := by
+        simp [rpEmpty] at he; omega
+      simp only [rpEmptyClears_true, if_true] at h
+      injection h with h; subst h
+      exact ⟨⟨rfl, rfl, Or.inl hle⟩, rfl, rfl, rfl⟩
+    · split at h
+      · cases h
+      · split at h
+        · cases h
+        · split at h
+          · cases h
+          · have hfr := beforeFirst_frame _ _ h
+            have hc := beforeFirst_clean _ _ h (by rw [← hfr.2.1, ← hfr.2.2.1]; exact hlt)
+            exact ⟨hc.1, hfr.1, hfr.2.2.2.1, hfr.2.2.2.2.1⟩
 
 end CleanAux
+open CleanAux
+
+/-! ### `Equiv` is an equivalence relation; clean states on the same part are equivalent -/
+
+theorem equiv_refl (s : Base) : Equiv s s :=
+  ⟨rfl, rfl, rfl, rfl, rfl, chunkEquiv_refl _, Or.inr ⟨rfl, rfl, rfl⟩⟩
+
+theorem equiv_symm {s t : Base} (h : Equiv s t) : Equiv t s := by
+  obtain ⟨h1, h2, h3, h4, h5, h6, h7⟩ := h
+  refine ⟨h1.symm, h2.symm, h3.symm, h4.symm, h5.symm, chunkEquiv_symm h6, ?_⟩
+  rcases h7 with h7 | ⟨a, b, c⟩
+  · left; omega
+  · right; exact ⟨a.symm, b.symm, c.symm⟩
+
+theorem equiv_trans {s t u : Base} (h : Equiv s t) (g : Equiv t u) : Equiv s u := by
+  obtain ⟨h1, h2, h3, h4, h5, h6, h7⟩ := h
+  obtain ⟨g1, g2, g3, g4, g5, g6, g7⟩ := g
+  refine ⟨h1.trans g1, h2.trans g2, h3.trans g3, h4.trans g4, h5.trans g5, chunkEquiv_trans h6 g6, ?_⟩
+  rcases h7 with h7 | ⟨a, b, c⟩
+  · left; exact h7
+  · rcases g7 with g7 | ⟨a', b', c'⟩
+    · left; omega
+    · right; exact ⟨a.trans a', b.trans b', c.trans c'⟩
+
+theorem clean_equiv (s t : Base) (hs : Clean s) (ht : Clean t) (hf : s.files = t.files)
+    (hb : s.offBegin = t.offBegin) (he : s.offEnd = t.offEnd) (hw : s.bufWords = t.bufWords) :
+    Equiv s t := by
+  obtain ⟨s1, s2, s3⟩ := hs
+  obtain ⟨t1, t2, t3⟩ := ht
+  refine ⟨hf, hb, he, s2.trans t2.symm, hw, chunkEquiv_of_empty s1 t1, ?_⟩
+  rcases s3 with s3 | ⟨a, b, c⟩
+  · left; exact s3
+  · rcases t3 with t3 | ⟨a', b', c'⟩
+    · left; omega
+    · right
+      refine ⟨?_, ?_, ?_⟩
+      · rw [a, a', hb]
+      · rw [b, b', hf, hb]
+      · rw [c, c', hf, hb]
+
+theorem resetPartition_clean (F : Fmt) (s s' : Base) (k n : Nat) (h : resetPartition F s k n = .ok s')
+    (hlt : s'.offBegin < s'.offEnd → s'.offBegin < 2^64) :
+    Clean s' ∧ s'.files = s.files ∧ s'.bufWords = s.bufWords ∧ s'.chunk.dataWords = s.chunk.dataWords := by
+  rw [resetPartition_eq_gen] at h
+  exact rpGen_clean _ _ _ _ _ _ F s s' k n h hlt
+
+/-- the outcome of `resetPartition` depends on the old state only through `files` / `bufWords` (any `k`, `n`);
+the two results even agree on `offCurr` (`EquivG false`) -/
+theorem resetPartition_indepG (F : Fmt) (s t : Base) (k n : Nat) (hf : s.files = t.files)
+    (hb : s.bufWords = t.bufWords) :
+    ERel false (EquivG false) (resetPartition F s k n) (resetPartition F t k n) :=
+  resetPartition_core F s t k n hf hb
+
+theorem resetPartition_indep (F : Fmt) (s t : Base) (k n : Nat) (hf : s.files = t.files)
+    (hb : s.bufWords = t.bufWords) :
+    match resetPartition F s k n, resetPartition F t k n with
+    | .ok s', .ok t' => Equiv s' t'
+    | .error e1, .error e2 => e1 = e2
+    | _, _ => False := by
+  have h' := resetPartition_core F s t k n hf hb
+  generalize resetPartition F s k n = x at h' ⊢
+  generalize resetPartition F t k n = y at h' ⊢
+  cases x <;> cases y <;> simp [ERel] at h' ⊢
+  · exact h'
+  · exact h'.1
+
+/-- `beforeFirst` of equivalent states: equal errors or equivalent results -/
+theorem beforeFirst_equivG (ign : Bool) (s t : Base) (h : EquivG ign s t) :
+    ERel false (EquivG ign) (beforeFirst s) (beforeFirst t) := by
+  obtain ⟨⟨h1, h2, h3, h4, h5, h6, h7⟩, h8⟩ := h
+  refine beforeFirst_core ign s t h1 h2 h3 h5 ?_ (fun _ => h8)
+  rcases h7 with h7 | ⟨a, b, c⟩
+  · exact Or.inl h7
+  · exact Or.inr ⟨b, by rw [c]⟩
+
+theorem beforeFirst_equiv (s t : Base) (h : Equiv s t) :
+    match beforeFirst s, beforeFirst t with
+    | .ok s', .ok t' => Equiv s' t'
+    | .error e1, .error e2 => e1 = e2
+    | _, _ => False := by
+  have h' := beforeFirst_equivG true s t ⟨h, fun h => by cases h⟩
+  generalize beforeFirst s = x at h' ⊢
+  generalize beforeFirst t = y at h' ⊢
+  cases x <;> cases y <;> simp [ERel] at h' ⊢
+  · exact h'
+  · exact h'.1
+
+
+/-! ## B. the state machine respects the equivalence
+
+Every layer is proved for a *generic copy* of the model function in which the lower layer and the
+wrap-around arithmetic are variables, and transferred with a `delta … ; rfl` bridge whose two sides are
+syntactically equal (same matcher constants).  Reason: a kernel `whnf` of `sub64 a b = (a + 2^64 - b % 2^64) % 2^64`
+with a free `a` peels `2^64` successors, and `simp` / `split` / `rfl` steps on the model functions themselves make
+the kernel evaluate such terms (e.g. `loadSize dw`, `rdClipped`, `rcReadSize`) as soon as a `match` on them has
+to be unfolded. -/
+
+namespace CleanAux
+
+/-! ### `read` -/
+
+/-- `read` with `rdClipped` and `readLoop` abstracted -/
+def readG (clp : Nat → Nat → Nat)
+    (rl : Bool → List Bytes → Nat → Nat → Nat → Nat → Nat → Bytes → Except Err (Bytes × Nat × Nat × Nat))
+    (F : Fmt) (s : Base) (size : Nat) : Except Err (Bytes × Base) :=
+  beforeFirst.match_1 (fun _ => Except Err (Bytes × Base)) s.fpos (fun _ => Except.ok ([], s)) fun pos =>
+    if rdEmpty s.offBegin s.offEnd then .ok ([], s)
+    else
+      let size := if rdClip s.offCurr size s.offEnd then clp s.offCurr s.offEnd else size
+      if size = 0 then .ok ([], s)
+      else
+        read.match_1 (fun _ => Except Err (Bytes × Base))
+          (rl F.isText s.files (s.files.length + 1) size s.filePtr pos s.offCurr []) (fun e => Except.error e)
+          fun bytes fp pos oc =>
+          .ok (bytes, { s with filePtr := fp, fpos := some pos, offCurr := oc })
+
+attribute [local irreducible] rdClipped readLoop in
+theorem read_eq_gen (F : Fmt) : read F = readG rdClipped readLoop F := by
+  delta read readG
+  rfl
+
+theorem readG_empty (clp : Nat → Nat → Nat)
+    (rl : Bool → List Bytes → Nat → Nat → Nat → Nat → Nat → Bytes → Except Err (Bytes × Nat × Nat × Nat))
+    (F : Fmt) (s : Base) (size : Nat) (h : s.offEnd ≤ s.offBegin) :
+    readG clp rl F s size = .ok ([], s) := by
+  unfold readG
+  cases hp : s.fpos with
+  | none => rfl
+  | some p =>
+    simp only []
+    rw [if_pos (by simp [rdEmpty]; omega)]
+
+theorem readG_equiv (ign : Bool) (clp : Nat → Nat → Nat)
+    (rl : Bool → List Bytes → Nat → Nat → Nat → Nat → Nat → Bytes → Except Err (Bytes × Nat × Nat × Nat))
+    (F : Fmt) (s t : Base) (h : EquivG ign s t) (size : Nat) :
+    ERel false (fun a b => a.1 = b.1 ∧ EquivG ign a.2 b.2) (readG clp rl F s size) (readG clp rl F t size) := by
+  obtain ⟨⟨h1, h2, h3, h4, h5, h6, h7⟩, h8⟩ := h
+  have h : EquivG ign s t := ⟨⟨h1, h2, h3, h4, h5, h6, h7⟩, h8⟩
+  rcases h7 with hemp | ⟨a, b, c⟩
+  · rw [readG_empty clp rl F s size hemp, readG_empty clp rl F t size (by omega)]
+    exact ⟨rfl, h⟩
+  · unfold readG
+    rw [← h1, ← h2, ← h3, ← a, ← b, ← c]
+    cases hp : s.fpos with
+    | none => exact ⟨rfl, h⟩
+    | some pos =>
+      simp only []
+      by_cases he : rdEmpty s.offBegin s.offEnd = true
+      · rw [if_pos he, if_pos he]; exact ⟨rfl, h⟩
+      · rw [if_neg he, if_neg he]
+        generalize (if rdClip s.offCurr size s.offEnd = true then clp s.offCurr s.offEnd else size) = sz
+        by_cases hz : sz = 0
+        · rw [if_pos hz, if_pos hz]; exact ⟨rfl, h⟩
+        · rw [if_neg hz, if_neg hz]
+          cases hr : rl F.isText s.files (s.files.length + 1) sz s.filePtr pos s.offCurr [] with
+          | error e => exact ERel.err _
+          | ok r =>
+            obtain ⟨bytes, fp, p2, oc⟩ := r
+            exact ⟨rfl, ⟨rfl, rfl, rfl, h4, h5, h6, Or.inr ⟨rfl, rfl, rfl⟩⟩, fun _ => rfl⟩
+
+end CleanAux
+open CleanAux
+
+theorem read_equivG (ign : Bool) (F : Fmt) (s t : Base) (h : EquivG ign s t) (size : Nat) :
+    ERel false (fun a b => a.1 = b.1 ∧ EquivG ign a.2 b.2) (read F s size) (read F t size) := by
+  rw [read_eq_gen]
+  exact readG_equiv ign _ _ F s t h size
+
+
+namespace CleanAux
+
+theorem EquivG.setOverflow {ign : Bool} {s t : Base} (h : EquivG ign s t) (o : Bytes) :
+    EquivG ign { s with overflow := o } { t with overflow := o } := by
+  obtain ⟨⟨h1, h2, h3, _, h5, h6, h7⟩, h8⟩ := h
+  exact ⟨⟨h1, h2, h3, rfl, h5, h6, h7⟩, h8⟩
+
+theorem EquivG.setChunk {ign : Bool} {s t : Base} (h : EquivG ign s t) {c d : Chunk} (hc : ChunkEquiv c d) :
+    EquivG ign { s with chunk := c } { t with chunk := d } := by
+  obtain ⟨⟨h1, h2, h3, h4, h5, _, h7⟩, h8⟩ := h
+  exact ⟨⟨h1, h2, h3, h4, h5, hc, h7⟩, h8⟩
+
+/-! ### `readChunk` -/
+
+/-- `readChunk` with `read F` and `rcReadSize` abstracted -/
+def readChunkG (rd : Base → Nat → Except Err (Bytes × Base)) (rsz : Nat → Nat → Nat) (F : Fmt) (s : Base)
+    (maxSize : Nat) : Except Err (Option Bytes × Base) :=
+  if rcTooSmall maxSize s.overflow.length then .ok (some [], s)
+  else
+    let ov := s.overflow
+    let olen := ov.length
+    readChunk.match_1 (fun _ => Except Err (Option Bytes × Base))
+      (rd { s with overflow := [] } (rsz maxSize olen)) (fun e => Except.error e) fun bytes s =>
+      let buf := ov ++ bytes
+      let nread := buf.length
+      if nread = 0 then .ok (none, s)
+      else if F.isText = false ∧ rcShort nread maxSize then .ok (some buf, s)
+      else
+        let buf := if F.isText ∧ rcNoNewData nread olen then buf ++ [UInt8.ofNat rcNewline] else buf
+        resetPartition.match_5 (fun _ => Except Err (Option Bytes × Base)) (F.findLastRecordBegin buf)
+          (fun e => Except.error e) fun cut =>
+          .ok (some (buf.take cut), { s with overflow := buf.drop cut })
+
+attribute [local irreducible] read rcReadSize in
+theorem readChunk_eq_gen (F : Fmt) : readChunk F = readChunkG (read F) rcReadSize F := by
+  delta readChunk readChunkG
+  rfl
+
+theorem readChunkG_equiv (ign : Bool) (rd : Base → Nat → Except Err (Bytes × Base))
+    (hrd : ∀ s t size, EquivG ign s t →
+      ERel false (fun a b => a.1 = b.1 ∧ EquivG ign a.2 b.2) (rd s size) (rd t size))
+    (rsz : Nat → Nat → Nat) (F : Fmt) (s t : Base) (h : EquivG ign s t) (m : Nat) :
+    ERel false (fun a b => a.1 = b.1 ∧ EquivG ign a.2 b.2) (readChunkG rd rsz F s m) (readChunkG rd rsz F t m) := by
+  have h4 : s.overflow = t.overflow := h.1.2.2.2.1
+  unfold readChunkG
+  rw [← h4]
+  by_cases hts : rcTooSmall m s.overflow.length = true
+  · rw [if_pos hts, if_pos hts]; exact ⟨rfl, h⟩
+  · rw [if_neg hts, if_neg hts]
+    simp only []
+    have hx := hrd { s with overflow := [] } { t with overflow := [] } (rsz m s.overflow.length)
+      (EquivG.setOverflow h [])
+    rcases ERel.cases hx with ⟨a, b, hx, hy, hR⟩ | ⟨e, hx, hy⟩ | ⟨hi, _⟩ | ⟨hi, _⟩
+    · rw [hx, hy]
+      obtain ⟨bytes, s1⟩ := a
+      obtain ⟨bytes', t1⟩ := b
+      obtain ⟨hb, hst⟩ := hR
+      simp only [] at hb hst
+      subst hb
+      simp only []
+      by_cases hz : (s.overflow ++ bytes).length = 0
+      · rw [if_pos hz, if_pos hz]; exact ⟨rfl, hst⟩
+      · rw [if_neg hz, if_neg hz]
+        by_cases hsh : F.isText = false ∧ rcShort (s.overflow ++ bytes).length m = true
+        · rw [if_pos hsh, if_pos hsh]; exact ⟨rfl, hst⟩
+        · rw [if_neg hsh, if_neg hsh]
+          generalize (if F.isText = true ∧ rcNoNewData (s.overflow ++ bytes).length s.overflow.length = true
+            then s.overflow ++ bytes ++ [UInt8.ofNat rcNewline] else s.overflow ++ bytes) = buf
+          cases hc : F.findLastRecordBegin buf with
+          | error e => exact ERel.err _
+          | ok cut => exact ⟨rfl, EquivG.setOverflow hst _⟩
+    · rw [hx, hy]; exact ERel.err _
+    · cases hi
+    · cases hi
+
+end CleanAux
+open CleanAux
+
+theorem readChunk_equivG (ign : Bool) (F : Fmt) (s t : Base) (h : EquivG ign s t) (m : Nat) :
+    ERel false (fun a b => a.1 = b.1 ∧ EquivG ign a.2 b.2) (readChunk F s m) (readChunk F t m) := by
+  rw [readChunk_eq_gen]
+  exact readChunkG_equiv ign _ (fun s t size h => read_equivG ign F s t h size) _ F s t h m
+
+
+namespace CleanAux
+
+/-! ### `loadLoop` -/
+
+/-- `loadLoop` with `readChunk F`, `loadSize`, `loadGrow` abstracted -/
+def loadLoopG (rc : Base → Nat → Except Err (Option Bytes × Base)) (sz grow : Nat → Nat) :
+    Nat → Base → Nat → Except Err (Option Bytes × Base × Nat)
+  | 0, _, _ => .error .fuel
+  | fuel + 1, s, dataWords =>
+    loadLoop.match_1 (fun _ => Except Err (Option Bytes × Base × Nat)) (rc s (sz dataWords))
+      (fun e => .error e) (fun s => .ok (none, s, dataWords))
+      (fun s => loadLoopG rc sz grow fuel s (grow dataWords)) (fun c s => .ok (some c, s, dataWords))
+
+/-- one visit of the loop body of `Chunk::Load`, as a function of the `ReadChunk` result -/
+def loadStepG (d : Except Err (Option Bytes × Base)) (k : Base → Except Err (Option Bytes × Base × Nat))
+    (dw : Nat) : Except Err (Option Bytes × Base × Nat) :=
+  match d with
+  | .error e => .error e
+  | .ok (none, s) => .ok (none, s, dw)
+  | .ok (some [], s) => k s
+  | .ok (some c, s) => .ok (some c, s, dw)
+
+theorem loadLoopG_succ (rc : Base → Nat → Except Err (Option Bytes × Base)) (sz grow : Nat → Nat)
+    (fuel : Nat) (s : Base) (dw : Nat) :
+    loadLoopG rc sz grow (fuel + 1) s dw =
+      loadStepG (rc s (sz dw)) (fun s1 => loadLoopG rc sz grow fuel s1 (grow dw)) dw := by
+  rw [loadLoopG]; rfl
+
+attribute [local irreducible] readChunk loadSize loadGrow in
+theorem loadLoop_eq_gen' (F : Fmt) : loadLoop F = loadLoopG (readChunk F) loadSize loadGrow := by
+  delta loadLoop loadLoopG
+  rfl
+
+/-- same fuel on both sides: strict agreement -/
+theorem loadLoopG_equiv (ign : Bool) (rc : Base → Nat → Except Err (Option Bytes × Base))
+    (hrc : ∀ s t m, EquivG ign s t →
+      ERel false (fun a b => a.1 = b.1 ∧ EquivG ign a.2 b.2) (rc s m) (rc t m))
+    (sz grow : Nat → Nat) : ∀ (fuel : Nat) (s t : Base) (dw : Nat), EquivG ign s t →
+    ERel false (fun a b => a.1 = b.1 ∧ EquivG ign a.2.1 b.2.1 ∧ a.2.2 = b.2.2)
+      (loadLoopG rc sz grow fuel s dw) (loadLoopG rc sz grow fuel t dw) := by
+  intro fuel
+  induction fuel with
+  | zero => intro s t dw _; exact ERel.err _
+  | succ fuel ih =>
+    intro s t dw h
+    rw [loadLoopG_succ, loadLoopG_succ]
+    rcases ERel.cases (hrc s t (sz dw) h) with ⟨a, b, hx, hy, hR⟩ | ⟨e, hx, hy⟩ | ⟨hi, _⟩ | ⟨hi, _⟩
+    · rw [hx, hy]
+      obtain ⟨o, s1⟩ := a
+      obtain ⟨o', t1⟩ := b
+      obtain ⟨ho, hst⟩ := hR
+      simp only [] at ho hst
+      subst ho
+      cases o with
+      | none => exact ⟨rfl, hst, rfl⟩
+      | some c =>
+        cases c with
+        | nil => exact ih s1 t1 (grow dw) hst
+        | cons x xs => exact ⟨rfl, hst, rfl⟩
+    · rw [hx, hy]; exact ERel.err _
+    · cases hi
+    · cases hi
+
+/-- more fuel does not change a result other than `fuel` -/
+theorem loadLoopG_mono (rc : Base → Nat → Except Err (Option Bytes × Base)) (sz grow : Nat → Nat) :
+    ∀ (fuel : Nat) (s : Base) (dw : Nat), loadLoopG rc sz grow fuel s dw ≠ .error .fuel →
+      ∀ k, loadLoopG rc sz grow (fuel + k) s dw = loadLoopG rc sz grow fuel s dw := by
+  intro fuel
+  induction fuel with
+  | zero => intro s dw h; exact absurd rfl h
+  | succ fuel ih =>
+    intro s dw h k
+    have e : fuel + 1 + k = (fuel + k) + 1 := by omega
+    rw [e, loadLoopG_succ, loadLoopG_succ]
+    rw [loadLoopG_succ] at h
+    cases hx : rc s (sz dw) with
+    | error e => rfl
+    | ok r =>
+      obtain ⟨o, s1⟩ := r
+      rw [hx] at h
+      cases o with
+      | none => rfl
+      | some c =>
+        cases c with
+        | nil => exact ih s1 (grow dw) h k
+        | cons x xs => rfl
+
+/-- possibly different fuel: agreement up to `fuel` outcomes (`ign = true`), strict for equal fuel -/
+theorem loadLoopG_equiv_fuels (ign : Bool) (rc : Base → Nat → Except Err (Option Bytes × Base))
+    (hrc : ∀ s t m, EquivG ign s t →
+      ERel false (fun a b => a.1 = b.1 ∧ EquivG ign a.2 b.2) (rc s m) (rc t m))
+    (sz grow : Nat → Nat) (f1 f2 : Nat) (hf : ign = false → f1 = f2) (s t : Base) (dw : Nat)
+    (h : EquivG ign s t) :
+    ERel ign (fun a b => a.1 = b.1 ∧ EquivG ign a.2.1 b.2.1 ∧ a.2.2 = b.2.2)
+      (loadLoopG rc sz grow f1 s dw) (loadLoopG rc sz grow f2 t dw) := by
+  cases hi : ign with
+  | false =>
+    rw [hi] at hf
+    rw [hf rfl]
+    have := loadLoopG_equiv ign rc hrc sz grow f2 s t dw h
+    rw [hi] at this
+    exact this
+  | true =>
+    by_cases hx : loadLoopG rc sz grow f1 s dw = .error .fuel
+    · rw [hx]; exact ERel.fuel_left rfl _
+    · by_cases hy : loadLoopG rc sz grow f2 t dw = .error .fuel
+      · rw [hy]; exact ERel.fuel_right rfl _
+      · have h1 := loadLoopG_mono rc sz grow f1 s dw hx f2
+        have h2 := loadLoopG_mono rc sz grow f2 t dw hy f1
+        have e : f2 + f1 = f1 + f2 := by omega
+        rw [e] at h2
+        have := loadLoopG_equiv ign rc hrc sz grow (f1 + f2) s t dw h
+        rw [h1, h2, hi] at this
+        exact ERel.weaken this
+
+/-! ### `load` -/
+
+/-- `load` with `loadLoop F`, `loadFuel`, `loadResize` abstracted -/
+def loadG (L : Nat → Base → Nat → Except Err (Option Bytes × Base × Nat)) (fu : Base → Nat)
+    (rs : Nat → Nat) (s : Base) (c : Chunk) : Except Err (Bool × Base × Chunk) :=
+  load.match_1 (fun _ => Except Err (Bool × Base × Chunk)) (L (fu s) s (rs s.bufWords))
+    (fun e => .error e)
+    (fun s dw => .ok (false, s, { c with dataWords := dw }))
+    (fun bytes s dw => .ok (true, s, { dataWords := dw, begin := 0, rest := bytes }))
+
+attribute [local irreducible] loadLoop loadFuel loadResize in
+theorem load_eq_gen' (F : Fmt) : load F = loadG (loadLoop F) loadFuel loadResize := by
+  delta load loadG
+  rfl
+
+/-- on `false` the chunk keeps its window (only `dataWords` changes), on `true` the new chunks are equal
+and non-empty -/
+def LoadRel (ign : Bool) (a b : Bool × Base × Chunk) : Prop :=
+  a.1 = b.1 ∧ EquivG ign a.2.1 b.2.1 ∧ ChunkEquiv a.2.2 b.2.2 ∧
+  (a.1 = true → a.2.2 = b.2.2 ∧ a.2.2.rest ≠ [])
+
+theorem loadG_equiv (ign : Bool) (L : Nat → Base → Nat → Except Err (Option Bytes × Base × Nat))
+    (fu : Base → Nat)
+    (hL : ∀ s t dw, EquivG ign s t →
+      ERel ign (fun a b => a.1 = b.1 ∧ EquivG ign a.2.1 b.2.1 ∧ a.2.2 = b.2.2) (L (fu s) s dw) (L (fu t) t dw))
+    (hne : ∀ f s dw bytes s' dw', L f s dw = .ok (some bytes, s', dw') → bytes ≠ [])
+    (rs : Nat → Nat) (s t : Base) (h : EquivG ign s t) (c d : Chunk) (hc : ChunkEquiv c d) :
+    ERel ign (LoadRel ign) (loadG L fu rs s c) (loadG L fu rs t d) := by
+  have h5 : s.bufWords = t.bufWords := h.1.2.2.2.2.1
+  unfold loadG
+  rw [← h5]
+  rcases ERel.cases (hL s t (rs s.bufWords) h) with ⟨a, b, hx, hy, hR⟩ | ⟨e, hx, hy⟩ | ⟨hi, hx⟩ | ⟨hi, hy⟩
+  · rw [hx, hy]
+    obtain ⟨o, s1, dw1⟩ := a
+    obtain ⟨o', t1, dw2⟩ := b
+    obtain ⟨ho, hst, hdw⟩ := hR
+    simp only [] at ho hst hdw
+    subst ho hdw
+    cases o with
+    | none =>
+      exact ⟨rfl, hst, ⟨hc.1, fun hr => ⟨(hc.2 hr).1, rfl⟩⟩, fun hh => by cases hh⟩
+    | some bytes =>
+      exact ⟨rfl, hst, chunkEquiv_refl _, fun _ => ⟨rfl, hne _ _ _ _ _ _ hx⟩⟩
+  · rw [hx, hy]; exact ERel.err _
+  · rw [hx]; exact ERel.fuel_left hi _
+  · rw [hy]; exact ERel.fuel_right hi _
+
+theorem loadLoopG_some_ne (rc : Base → Nat → Except Err (Option Bytes × Base)) (sz grow : Nat → Nat) :
+    ∀ (fuel : Nat) (s : Base) (dw : Nat) (bytes : Bytes) (s' : Base) (dw' : Nat),
+      loadLoopG rc sz grow fuel s dw = .ok (some bytes, s', dw') → bytes ≠ [] := by
+  intro fuel
+  induction fuel with
+  | zero => intro s dw bytes s' dw' h; cases h
+  | succ fuel ih =>
+    intro s dw bytes s' dw' h
+    rw [loadLoopG_succ] at h
+    cases hx : rc s (sz dw) with
+    | error e => rw [hx] at h; cases h
+    | ok r =>
+      obtain ⟨o, s1⟩ := r
+      rw [hx] at h
+      cases o with
+      | none => cases h
+      | some c =>
+        cases c with
+        | nil => exact ih s1 (grow dw) bytes s' dw' h
+        | cons x xs =>
+          simp only [loadStepG] at h
+          injection h with h
+          injection h with h1 _
+          injection h1 with h1
+          rw [← h1]; exact List.cons_ne_nil _ _
+
+end CleanAux
+open CleanAux
+
+theorem loadLoop_equivG (ign : Bool) (F : Fmt) (f1 f2 : Nat) (hf : ign = false → f1 = f2) (s t : Base)
+    (dw : Nat) (h : EquivG ign s t) :
+    ERel ign (fun a b => a.1 = b.1 ∧ EquivG ign a.2.1 b.2.1 ∧ a.2.2 = b.2.2)
+      (loadLoop F f1 s dw) (loadLoop F f2 t dw) := by
+  rw [loadLoop_eq_gen']
+  exact loadLoopG_equiv_fuels ign _ (fun s t m h => readChunk_equivG ign F s t h m) _ _ f1 f2 hf s t dw h
+
+theorem loadFuel_eq_of_equivG (s t : Base) (h : EquivG false s t) : loadFuel s = loadFuel t := by
+  obtain ⟨⟨h1, _, h3, h4, _, _, _⟩, h8⟩ := h
+  unfold loadFuel
+  rw [h1, h3, h4, h8 rfl]
+
+attribute [local irreducible] loadLoop loadFuel loadResize load readChunk read in
+theorem load_equivG (ign : Bool) (F : Fmt) (s t : Base) (h : EquivG ign s t) (c d : Chunk)
+    (hc : ChunkEquiv c d) :
+    ERel ign (LoadRel ign) (load F s c) (load F t d) := by
+  rw [load_eq_gen']
+  have hL : ∀ s t dw, EquivG ign s t →
+      ERel ign (fun a b => a.1 = b.1 ∧ EquivG ign a.2.1 b.2.1 ∧ a.2.2 = b.2.2)
+        (loadLoop F (loadFuel s) s dw) (loadLoop F (loadFuel t) t dw) := by
+    intro s t dw h
+    refine loadLoop_equivG ign F _ _ ?_ s t dw h
+    intro hi
+    subst hi
+    exact loadFuel_eq_of_equivG s t h
+  have hne : ∀ f s dw bytes s' dw', loadLoop F f s dw = .ok (some bytes, s', dw') → bytes ≠ [] := by
+    intro f s dw bytes s' dw' hh
+    rw [loadLoop_eq_gen'] at hh
+    exact loadLoopG_some_ne _ _ _ f s dw bytes s' dw' hh
+  exact loadG_equiv ign (loadLoop F) loadFuel hL hne loadResize s t h c d hc
+
+
+/-! ### record extraction respects `ChunkEquiv` -/
+
+/-- results of `ExtractNextRecord` / `ExtractNextChunk` on equivalent chunks -/
+def ExtRel : Option (Bytes × Chunk) → Option (Bytes × Chunk) → Prop
+  | none, none => True
+  | some (b1, c1), some (b2, c2) => b1 = b2 ∧ ChunkEquiv c1 c2
+  | _, _ => False
+
+/-- an extraction function respects chunk equivalence, returns "no record" on an exhausted chunk and only then -/
+structure ExtOK (ext : Chunk → Except Err (Option (Bytes × Chunk))) : Prop where
+  resp : ∀ c d, ChunkEquiv c d → ERel false ExtRel (ext c) (ext d)
+  none_iff : ∀ c, ext c = .ok none ↔ c.rest = []
+
+/-- A format respects chunk equivalence if `extractNext` does -/
+def ExtractRespects (F : Fmt) : Prop :=
+  ∀ c d, ChunkEquiv c d →
+    match F.extractNext c, F.extractNext d with
+    | .ok none, .ok none => True
+    | .ok (some (b1, c1)), .ok (some (b2, d1)) => b1 = b2 ∧ ChunkEquiv c1 d1
+    | .error e1, .error e2 => e1 = e2
+    | _, _ => False
+
+/-- `extractNext` returns "no record" exactly on an exhausted chunk (needed for the wrapper, where an
+allocated-but-exhausted chunk is identified with no chunk) -/
+def ExtractNoneIff (F : Fmt) : Prop := ∀ c, F.extractNext c = .ok none ↔ c.rest = []
+
+namespace CleanAux
+
+theorem extRel_of_respects (F : Fmt) (hF : ExtractRespects F) (c d : Chunk) (h : ChunkEquiv c d) :
+    ERel false ExtRel (F.extractNext c) (F.extractNext d) := by
+  have := hF c d h
+  generalize F.extractNext c = x at this ⊢
+  generalize F.extractNext d = y at this ⊢
+  cases x with
+  | error e1 =>
+    cases y with
+    | error e2 => simp only [] at this; exact Or.inl this
+    | ok b => cases this
+  | ok a =>
+    cases y with
+    | error e2 => cases a <;> cases this
+    | ok b =>
+      cases a with
+      | none => cases b with
+        | none => trivial
+        | some q => cases this
+      | some p => cases b with
+        | none => cases this
+        | some q => exact this
+
+/-! ### `nextLoop` -/
+
+/-- `nextLoop` with `load F` abstracted -/
+def nextLoopG (ld : Base → Chunk → Except Err (Bool × Base × Chunk))
+    (ext : Chunk → Except Err (Option (Bytes × Chunk))) : Nat → Base → Except Err (Option Bytes × Base)
+  | 0, _ => .error .fuel
+  | fuel + 1, s =>
+    nextLoop.match_3 (fun _ => Except Err (Option Bytes × Base)) (ext s.chunk) (fun e => .error e)
+      (fun b c => .ok (some b, { s with chunk := c }))
+      (fun _ => nextLoop.match_1 (fun _ => Except Err (Option Bytes × Base)) (ld s s.chunk)
+        (fun e => .error e)
+        (fun s c => .ok (none, { s with chunk := c }))
+        (fun s c => nextLoopG ld ext fuel { s with chunk := c }))
+
+theorem nextLoopG_succ (ld : Base → Chunk → Except Err (Bool × Base × Chunk))
+    (ext : Chunk → Except Err (Option (Bytes × Chunk))) (fuel : Nat) (s : Base) :
+    nextLoopG ld ext (fuel + 1) s =
+      match ext s.chunk with
+      | .error e => .error e
+      | .ok (some (b, c)) => .ok (some b, { s with chunk := c })
+      | .ok none =>
+        match ld s s.chunk with
+        | .error e => .error e
+        | .ok (false, s, c) => .ok (none, { s with chunk := c })
+        | .ok (true, s, c) => nextLoopG ld ext fuel { s with chunk := c } := by
+  rw [nextLoopG]; rfl
+
+attribute [local irreducible] load in
+theorem nextLoop_eq_gen (F : Fmt) (ext : Chunk → Except Err (Option (Bytes × Chunk))) :
+    nextLoop F ext = nextLoopG (load F) ext := by
+  delta nextLoop nextLoopG
+  rfl
+
+theorem nextLoopG_equiv (ign : Bool) (ld : Base → Chunk → Except Err (Bool × Base × Chunk))
+    (hld : ∀ s t c d, EquivG ign s t → ChunkEquiv c d → ERel ign (LoadRel ign) (ld s c) (ld t d))
+    (ext : Chunk → Except Err (Option (Bytes × Chunk)))
+    (hext : ∀ c d, ChunkEquiv c d → ERel false ExtRel (ext c) (ext d)) :
+    ∀ (fuel : Nat) (s t : Base), EquivG ign s t →
+      ERel ign (fun a b => a.1 = b.1 ∧ EquivG ign a.2 b.2) (nextLoopG ld ext fuel s) (nextLoopG ld ext fuel t) := by
+  intro fuel
+  induction fuel with
+  | zero => intro s t _; exact ERel.err _
+  | succ fuel ih =>
+    intro s t h
+    have hc : ChunkEquiv s.chunk t.chunk := h.1.2.2.2.2.2.1
+    rw [nextLoopG_succ, nextLoopG_succ]
+    rcases ERel.cases (hext _ _ hc) with ⟨a, b, hx, hy, hR⟩ | ⟨e, hx, hy⟩ | ⟨hi, _⟩ | ⟨hi, _⟩
+    · rw [hx, hy]
+      cases a with
+      | some p =>
+        cases b with
+        | none => cases hR
+        | some q =>
+          obtain ⟨b1, c1⟩ := p
+          obtain ⟨b2, c2⟩ := q
+          exact ⟨congrArg some hR.1, EquivG.setChunk h hR.2⟩
+      | none =>
+        cases b with
+        | some q => cases hR
+        | none =>
+          simp only []
+          rcases ERel.cases (hld s t _ _ h hc) with ⟨a, b, hx, hy, hR⟩ | ⟨e, hx, hy⟩ | ⟨hi, hx⟩ | ⟨hi, hy⟩
+          · rw [hx, hy]
+            obtain ⟨ok1, s1, c1⟩ := a
+            obtain ⟨ok2, t1, d1⟩ := b
+            obtain ⟨hok, hst, hcd, _⟩ := hR
+            simp only [] at hok hst hcd
+            subst hok
+            cases ok1 with
+            | false => exact ⟨rfl, EquivG.setChunk hst hcd⟩
+            | true => exact ih _ _ (EquivG.setChunk hst hcd)
+          · rw [hx, hy]; exact ERel.err _
+          · rw [hx]; exact ERel.fuel_left hi _
+          · rw [hy]; exact ERel.fuel_right hi _
+    · rw [hx, hy]; exact ERel.err _
+    · cases hi
+    · cases hi
+
+end CleanAux
+open CleanAux
+
+attribute [local irreducible] load in
+theorem nextLoop_equivG (ign : Bool) (F : Fmt) (ext : Chunk → Except Err (Option (Bytes × Chunk)))
+    (hext : ∀ c d, ChunkEquiv c d → ERel false ExtRel (ext c) (ext d)) (fuel : Nat) (s t : Base)
+    (h : EquivG ign s t) :
+    ERel ign (fun a b => a.1 = b.1 ∧ EquivG ign a.2 b.2) (nextLoop F ext fuel s) (nextLoop F ext fuel t) := by
+  rw [nextLoop_eq_gen]
+  exact nextLoopG_equiv ign (load F) (fun s t c d h hc => load_equivG ign F s t h c d hc) ext hext fuel s t h
+
+
+namespace CleanAux
+
+theorem chunk_eq_of_equiv {c d : Chunk} (h : ChunkEquiv c d) (hne : c.rest ≠ []) : c = d := by
+  obtain ⟨h1, h2⟩ := h
+  obtain ⟨h3, h4⟩ := h2 hne
+  cases c; cases d
+  simp only [] at h1 h3 h4
+  subst h1 h3 h4
+  rfl
+
+theorem extRel_refl (o : Option (Bytes × Chunk)) : ExtRel o o := by
+  cases o with
+  | none => trivial
+  | some p => exact ⟨rfl, chunkEquiv_refl _⟩
+
+/-- "no record exactly on an exhausted chunk" already implies that equivalent chunks are treated alike -/
+theorem extOK_of_none_iff (ext : Chunk → Except Err (Option (Bytes × Chunk)))
+    (h : ∀ c, ext c = .ok none ↔ c.rest = []) : ExtOK ext := by
+  refine ⟨?_, h⟩
+  intro c d hcd
+  by_cases hne : c.rest = []
+  · have hd : d.rest = [] := by rw [← hcd.1]; exact hne
+    rw [(h c).2 hne, (h d).2 hd]
+    trivial
+  · rw [chunk_eq_of_equiv hcd hne]
+    cases ext d with
+    | error e => exact ERel.err _
+    | ok o => exact extRel_refl o
+
+theorem extractChunk_none_iff (c : Chunk) :
+    (Except.ok (extractChunk c) : Except Err _) = .ok none ↔ c.rest = [] := by
+  unfold extractChunk
+  cases hr : c.rest with
+  | nil => simp
+  | cons x xs => simp
+
+theorem textExtract_none_iff (c : Chunk) : textExtract c = .ok none ↔ c.rest = [] := by
+  unfold textExtract
+  cases hr : c.rest with
+  | nil => simp
+  | cons x xs =>
+    simp only [List.isEmpty_cons, Bool.false_eq_true, if_false]
+    constructor
+    · intro h
+      split at h
+      · split at h <;> cases h
+      · cases h
+    · intro h; cases h
+
+theorem recExtractMore_ne_none : ∀ (fuel : Nat) (out : Bytes) (c : Chunk) (cflag : Nat),
+    recExtractMore fuel out c cflag ≠ .ok none := by
+  intro fuel
+  induction fuel with
+  | zero => intro out c cflag h; simp [recExtractMore] at h
+  | succ fuel ih =>
+    intro out c cflag h
+    rw [recExtractMore] at h
+    split at h
+    · split at h
+      · split at h
+        · simp only [] at h
+          split at h
+          · cases h
+          · exact ih _ _ _ h
+        · cases h
+      · cases h
+    · cases h
+
+theorem recExtract_none_iff (c : Chunk) : recExtract c = .ok none ↔ c.rest = [] := by
+  unfold recExtract
+  cases hr : c.rest with
+  | nil => simp
+  | cons x xs =>
+    simp only [List.isEmpty_cons, Bool.false_eq_true, if_false]
+    constructor
+    · intro h
+      split at h
+      · cases h
+      · split at h
+        · cases h
+        · split at h
+          · split at h
+            · cases h
+            · split at h
+              · cases h
+              · split at h
+                · exact absurd h (recExtractMore_ne_none _ _ _ _)
+                · cases h
+          · cases h
+    · intro h; cases h
+
+end CleanAux
+open CleanAux
+
+theorem extOK_extractChunk : ExtOK (fun c => .ok (extractChunk c)) :=
+  extOK_of_none_iff _ extractChunk_none_iff
+
+theorem extractNoneIff_text : ExtractNoneIff Fmt.text := textExtract_none_iff
+theorem extractNoneIff_recordio : ExtractNoneIff Fmt.recordio := recExtract_none_iff
+
+theorem extractRespects_of_noneIff (F : Fmt) (h : ExtractNoneIff F) : ExtractRespects F := by
+  intro c d hcd
+  have := (extOK_of_none_iff F.extractNext h).resp c d hcd
+  generalize F.extractNext c = x at this ⊢
+  generalize F.extractNext d = y at this ⊢
+  cases x with
+  | error e1 =>
+    cases y with
+    | error e2 => simpa [ERel] using this
+    | ok b => simp [ERel] at this
+  | ok a =>
+    cases y with
+    | error e2 => simp [ERel] at this
+    | ok b =>
+      cases a with
+      | none => cases b with
+        | none => trivial
+        | some q => cases this
+      | some p => cases b with
+        | none => cases this
+        | some q => exact this
+
+theorem extractRespects_text : ExtractRespects Fmt.text :=
+  extractRespects_of_noneIff _ extractNoneIff_text
+
+theorem extractRespects_recordio : ExtractRespects Fmt.recordio :=
+  extractRespects_of_noneIff _ extractNoneIff_recordio
+
+
+/-! ### the `SingleThreadedInputSplit` wrapper -/
+
+/-- results of `wrapProduce` on equivalent inputs: the freshly loaded chunk is always allocated -/
+def WPRel (ign : Bool) (a b : Bool × Base × Wrap) : Prop :=
+  a.1 = b.1 ∧ EquivG ign a.2.1 b.2.1 ∧ a.2.2.bufWords = b.2.2.bufWords ∧
+  ∃ c d, a.2.2.chunk = some c ∧ b.2.2.chunk = some d ∧ ChunkEquiv c d ∧ (a.1 = true → c = d ∧ c.rest ≠ [])
+
+/-- results of `wrapNext` / `wrapLoop` on equivalent inputs -/
+def WNRel (ign : Bool) (a b : Option Bytes × Base × Wrap) : Prop :=
+  a.1 = b.1 ∧ EquivG ign a.2.1 b.2.1 ∧ WrapEquiv (some a.2.2) (some b.2.2)
+
+namespace CleanAux
+
+/-- the chunk `NextProducer` loads into -/
+def wpChunk (w : Wrap) : Chunk :=
+  wrapProduce.match_1 (fun _ => Chunk) w.chunk (fun _ => ({ dataWords := chunkInitWords w.bufWords } : Chunk))
+    (fun c => c)
+
+/-- `wrapProduce` with `load F` abstracted -/
+def wrapProduceG (ld : Base → Chunk → Except Err (Bool × Base × Chunk)) (b : Base) (w : Wrap) :
+    Except Err (Bool × Base × Wrap) :=
+  let c := wrapProduce.match_1 (fun _ => Chunk) w.chunk
+    (fun _ => ({ dataWords := chunkInitWords w.bufWords } : Chunk)) (fun c => c)
+  wrapProduce.match_3 (fun _ => Except Err (Bool × Base × Wrap)) (ld b c) (fun e => .error e)
+    (fun ok b c => .ok (ok, b, { w with chunk := some c }))
+
+attribute [local irreducible] load in
+theorem wrapProduce_eq_gen (F : Fmt) : wrapProduce F = wrapProduceG (load F) := by
+  delta wrapProduce wrapProduceG
+  rfl
+
+theorem wpChunk_equiv (v w : Wrap) (h : WrapEquiv (some v) (some w)) : ChunkEquiv (wpChunk v) (wpChunk w) := by
+  obtain ⟨_, hch⟩ := h
+  unfold wpChunk
+  cases hv : v.chunk with
+  | none =>
+    cases hw : w.chunk with
+    | none => exact chunkEquiv_of_empty rfl rfl
+    | some d =>
+      rw [hv, hw] at hch
+      exact chunkEquiv_of_empty rfl hch
+  | some c =>
+    cases hw : w.chunk with
+    | none =>
+      rw [hv, hw] at hch
+      exact chunkEquiv_of_empty hch rfl
+    | some d =>
+      rw [hv, hw] at hch
+      exact hch
+
+theorem wrapProduceG_equiv (ign : Bool) (ld : Base → Chunk → Except Err (Bool × Base × Chunk))
+    (hld : ∀ s t c d, EquivG ign s t → ChunkEquiv c d → ERel ign (LoadRel ign) (ld s c) (ld t d))
+    (b b' : Base) (hb : EquivG ign b b') (v w : Wrap) (hw : WrapEquiv (some v) (some w)) :
+    ERel ign (WPRel ign) (wrapProduceG ld b v) (wrapProduceG ld b' w) := by
+  unfold wrapProduceG
+  simp only []
+  have hc := wpChunk_equiv v w hw
+  unfold wpChunk at hc
+  rcases ERel.cases (hld b b' _ _ hb hc) with
+    ⟨x, y, hx, hy, hR⟩ | ⟨e, hx, hy⟩ | ⟨hi, hx⟩ | ⟨hi, hy⟩
+  · rw [hx, hy]
+    obtain ⟨ok1, b1, c1⟩ := x
+    obtain ⟨ok2, b2, c2⟩ := y
+    obtain ⟨hok, hst, hcd, hex⟩ := hR
+    exact ⟨hok, hst, hw.1, c1, c2, rfl, rfl, hcd, hex⟩
+  · rw [hx, hy]; exact ERel.err _
+  · rw [hx]; exact ERel.fuel_left hi _
+  · rw [hy]; exact ERel.fuel_right hi _
+
+/-- `wrapLoop` with `wrapProduce F` abstracted -/
+def wrapLoopG (wp : Base → Wrap → Except Err (Bool × Base × Wrap))
+    (ext : Chunk → Except Err (Option (Bytes × Chunk))) :
+    Nat → Base → Wrap → Chunk → Except Err (Option Bytes × Base × Wrap)
+  | 0, _, _, _ => .error .fuel
+  | fuel + 1, b, w, c =>
+    nextLoop.match_3 (fun _ => Except Err (Option Bytes × Base × Wrap)) (ext c) (fun e => .error e)
+      (fun blob c => .ok (some blob, b, { w with chunk := some c }))
+      (fun _ => wrapLoop.match_1 (fun _ => Except Err (Option Bytes × Base × Wrap))
+        (wp b { w with chunk := none }) (fun e => .error e)
+        (fun b w => .ok (none, b, w))
+        (fun b w => wrapProduce.match_1 (fun _ => Except Err (Option Bytes × Base × Wrap)) w.chunk
+          (fun _ => .error .uninit) (fun c => wrapLoopG wp ext fuel b w c)))
+
+theorem wrapLoopG_succ (wp : Base → Wrap → Except Err (Bool × Base × Wrap))
+    (ext : Chunk → Except Err (Option (Bytes × Chunk))) (fuel : Nat) (b : Base) (w : Wrap) (c : Chunk) :
+    wrapLoopG wp ext (fuel + 1) b w c =
+      match ext c with
+      | .error e => .error e
+      | .ok (some (blob, c)) => .ok (some blob, b, { w with chunk := some c })
+      | .ok none =>
+        match wp b { w with chunk := none } with
+        | .error e => .error e
+        | .ok (false, b, w) => .ok (none, b, w)
+        | .ok (true, b, w) =>
+          match w.chunk with
+          | none => .error .uninit
+          | some c => wrapLoopG wp ext fuel b w c := by
+  rw [wrapLoopG]; rfl
+
+attribute [local irreducible] wrapProduce in
+theorem wrapLoop_eq_gen (F : Fmt) (ext : Chunk → Except Err (Option (Bytes × Chunk))) :
+    wrapLoop F ext = wrapLoopG (wrapProduce F) ext := by
+  delta wrapLoop wrapLoopG
+  rfl
+
+theorem wrapLoopG_equiv (ign : Bool) (wp : Base → Wrap → Except Err (Bool × Base × Wrap))
+    (hwp : ∀ b b' v w, EquivG ign b b' → WrapEquiv (some v) (some w) → ERel ign (WPRel ign) (wp b v) (wp b' w))
+    (ext : Chunk → Except Err (Option (Bytes × Chunk)))
+    (hext : ∀ c d, ChunkEquiv c d → ERel false ExtRel (ext c) (ext d)) :
+    ∀ (fuel : Nat) (b b' : Base) (v w : Wrap) (c d : Chunk), EquivG ign b b' → v.bufWords = w.bufWords →
+      ChunkEquiv c d →
+      ERel ign (WNRel ign) (wrapLoopG wp ext fuel b v c) (wrapLoopG wp ext fuel b' w d) := by
+  intro fuel
+  induction fuel with
+  | zero => intro b b' v w c d _ _ _; exact ERel.err _
+  | succ fuel ih =>
+    intro b b' v w c d hb hbw hc
+    rw [wrapLoopG_succ, wrapLoopG_succ]
+    rcases ERel.cases (hext _ _ hc) with ⟨x, y, hx, hy, hR⟩ | ⟨e, hx, hy⟩ | ⟨hi, _⟩ | ⟨hi, _⟩
+    · rw [hx, hy]
+      cases x with
+      | some p =>
+        cases y with
+        | none => cases hR
+        | some q =>
+          obtain ⟨b1, c1⟩ := p
+          obtain ⟨b2, c2⟩ := q
+          exact ⟨congrArg some hR.1, hb, hbw, hR.2⟩
+      | none =>
+        cases y with
+        | some q => cases hR
+        | none =>
+          simp only []
+          rcases ERel.cases (hwp b b' { v with chunk := none } { w with chunk := none } hb ⟨hbw, trivial⟩) with
+            ⟨x, y, hx, hy, hR⟩ | ⟨e, hx, hy⟩ | ⟨hi, hx⟩ | ⟨hi, hy⟩
+          · rw [hx, hy]
+            obtain ⟨ok1, b1, v1⟩ := x
+            obtain ⟨ok2, b2, w1⟩ := y
+            obtain ⟨hok, hst, hbw1, c1, d1, hv1, hw1, hcd, _⟩ := hR
+            simp only [] at hok hst hbw1 hv1 hw1
+            subst hok
+            cases ok1 with
+            | false =>
+              refine ⟨rfl, hst, hbw1, ?_⟩
+              simp only []
+              rw [hv1, hw1]
+              exact hcd
+            | true =>
+              simp only []
+              rw [hv1, hw1]
+              exact ih b1 b2 v1 w1 c1 d1 hst hbw1 hcd
+          · rw [hx, hy]; exact ERel.err _
+          · rw [hx]; exact ERel.fuel_left hi _
+          · rw [hy]; exact ERel.fuel_right hi _
+    · rw [hx, hy]; exact ERel.err _
+    · cases hi
+    · cases hi
+
+/-- on a non-exhausted chunk the first visit returns: the remaining fuel is irrelevant -/
+theorem wrapLoopG_fuel (wp : Base → Wrap → Except Err (Bool × Base × Wrap))
+    (ext : Chunk → Except Err (Option (Bytes × Chunk))) (hn : ∀ c, ext c = .ok none → c.rest = [])
+    (f1 f2 : Nat) (b : Base) (w : Wrap) (c : Chunk) (hc : c.rest ≠ []) :
+    wrapLoopG wp ext (f1 + 1) b w c = wrapLoopG wp ext (f2 + 1) b w c := by
+  rw [wrapLoopG_succ, wrapLoopG_succ]
+  cases hx : ext c with
+  | error e => rfl
+  | ok o =>
+    cases o with
+    | none => exact absurd (hn c hx) hc
+    | some p => rfl
+
+end CleanAux
+open CleanAux
+
+attribute [local irreducible] load in
+theorem wrapProduce_equivG (ign : Bool) (F : Fmt) (b b' : Base) (hb : EquivG ign b b') (v w : Wrap)
+    (hw : WrapEquiv (some v) (some w)) :
+    ERel ign (WPRel ign) (wrapProduce F b v) (wrapProduce F b' w) := by
+  rw [wrapProduce_eq_gen]
+  exact wrapProduceG_equiv ign (load F) (fun s t c d h hc => load_equivG ign F s t h c d hc) b b' hb v w hw
+
+
+namespace CleanAux
+
+/-- `wrapNext` with `wrapProduce F` and `wrapLoop F ext` abstracted -/
+def wrapNextG (wp : Base → Wrap → Except Err (Bool × Base × Wrap))
+    (wl : Nat → Base → Wrap → Chunk → Except Err (Option Bytes × Base × Wrap)) (b : Base) (w : Wrap) :
+    Except Err (Option Bytes × Base × Wrap) :=
+  wrapNext.match_1 (fun _ => Except Err (Option Bytes × Base × Wrap)) w.chunk (fun c => wl 3 b w c) fun _ =>
+    wrapLoop.match_1 (fun _ => Except Err (Option Bytes × Base × Wrap)) (wp b w) (fun e => .error e)
+      (fun b w => .ok (none, b, w)) fun b w =>
+      wrapProduce.match_1 (fun _ => Except Err (Option Bytes × Base × Wrap)) w.chunk
+        (fun _ => .error .uninit) fun c => wl 3 b w c
+
+attribute [local irreducible] wrapProduce wrapLoop in
+theorem wrapNext_eq_gen (F : Fmt) (ext : Chunk → Except Err (Option (Bytes × Chunk))) :
+    wrapNext F ext = wrapNextG (wrapProduce F) (wrapLoop F ext) := by
+  delta wrapNext wrapNextG
+  rfl
+
+theorem wrapNextG_unfold (wp : Base → Wrap → Except Err (Bool × Base × Wrap))
+    (wl : Nat → Base → Wrap → Chunk → Except Err (Option Bytes × Base × Wrap)) (b : Base) (w : Wrap) :
+    wrapNextG wp wl b w =
+      match w.chunk with
+      | some c => wl 3 b w c
+      | none =>
+        match wp b w with
+        | .error e => .error e
+        | .ok (false, b, w) => .ok (none, b, w)
+        | .ok (true, b, w) =>
+          match w.chunk with
+          | none => .error .uninit
+          | some c => wl 3 b w c := by
+  unfold wrapNextG; rfl
+
+/-- after a successful production both sides continue in `wrapLoopG`, possibly with different fuel -/
+theorem wrapNextG_tail (ign : Bool) (wp : Base → Wrap → Except Err (Bool × Base × Wrap))
+    (hwp : ∀ b b' v w, EquivG ign b b' → WrapEquiv (some v) (some w) → ERel ign (WPRel ign) (wp b v) (wp b' w))
+    (ext : Chunk → Except Err (Option (Bytes × Chunk))) (hE : ExtOK ext)
+    (f1 f2 : Nat) (b b' : Base) (hb : EquivG ign b b') (v w : Wrap) (hw : WrapEquiv (some v) (some w)) :
+    ERel ign (WNRel ign)
+      (match wp b v with
+        | .error e => .error e
+        | .ok (false, b, w) => .ok (none, b, w)
+        | .ok (true, b, w) =>
+          match w.chunk with
+          | none => .error .uninit
+          | some c => wrapLoopG wp ext (f1 + 1) b w c)
+      (match wp b' w with
+        | .error e => .error e
+        | .ok (false, b, w) => .ok (none, b, w)
+        | .ok (true, b, w) =>
+          match w.chunk with
+          | none => .error .uninit
+          | some c => wrapLoopG wp ext (f2 + 1) b w c) := by
+  rcases ERel.cases (hwp b b' v w hb hw) with ⟨x, y, hx, hy, hR⟩ | ⟨e, hx, hy⟩ | ⟨hi, hx⟩ | ⟨hi, hy⟩
+  · rw [hx, hy]
+    obtain ⟨ok1, b1, v1⟩ := x
+    obtain ⟨ok2, b2, w1⟩ := y
+    obtain ⟨hok, hst, hbw1, c1, d1, hv1, hw1, hcd, hex⟩ := hR
+    simp only [] at hok hst hbw1 hv1 hw1 hex
+    subst hok
+    cases ok1 with
+    | false =>
+      refine ⟨rfl, hst, hbw1, ?_⟩
+      simp only []
+      rw [hv1, hw1]
+      exact hcd
+    | true =>
+      simp only []
+      rw [hv1, hw1]
+      simp only []
+      obtain ⟨hcd', hne⟩ := hex rfl
+      rw [wrapLoopG_fuel wp ext (fun c h => (hE.none_iff c).1 h) f1 f2 b1 v1 c1 hne]
+      exact wrapLoopG_equiv ign wp hwp ext hE.resp (f2 + 1) b1 b2 v1 w1 c1 d1 hst hbw1 hcd
+  · rw [hx, hy]; exact ERel.err _
+  · rw [hx]; exact ERel.fuel_left hi _
+  · rw [hy]; exact ERel.fuel_right hi _
+
+theorem wrapNextG_equiv (ign : Bool) (wp : Base → Wrap → Except Err (Bool × Base × Wrap))
+    (hwp : ∀ b b' v w, EquivG ign b b' → WrapEquiv (some v) (some w) → ERel ign (WPRel ign) (wp b v) (wp b' w))
+    (ext : Chunk → Except Err (Option (Bytes × Chunk))) (hE : ExtOK ext)
+    (b b' : Base) (hb : EquivG ign b b') (v w : Wrap) (hw : WrapEquiv (some v) (some w)) :
+    ERel ign (WNRel ign) (wrapNextG wp (wrapLoopG wp ext) b v) (wrapNextG wp (wrapLoopG wp ext) b' w) := by
+  rw [wrapNextG_unfold, wrapNextG_unfold]
+  have hw' := hw
+  obtain ⟨hbw, hch⟩ := hw'
+  cases hv : v.chunk with
+  | some c =>
+    cases hwc : w.chunk with
+    | some d =>
+      rw [hv, hwc] at hch
+      exact wrapLoopG_equiv ign wp hwp ext hE.resp 3 b b' v w c d hb hbw hch
+    | none =>
+      -- an allocated but exhausted chunk on the left, none on the right
+      rw [hv, hwc] at hch
+      simp only [] at hch ⊢
+      rw [wrapLoopG_succ, (hE.none_iff c).2 hch]
+      simp only []
+      have hw2 : WrapEquiv (some { v with chunk := none }) (some w) := by
+        refine ⟨hbw, ?_⟩
+        simp only []
+        rw [hwc]
+        trivial
+      exact wrapNextG_tail ign wp hwp ext hE 1 2 b b' hb _ w hw2
+  | none =>
+    cases hwc : w.chunk with
+    | none =>
+      simp only []
+      exact wrapNextG_tail ign wp hwp ext hE 2 2 b b' hb v w hw
+    | some d =>
+      rw [hv, hwc] at hch
+      simp only [] at hch ⊢
+      rw [wrapLoopG_succ wp ext 2 b' w d, (hE.none_iff d).2 hch]
+      simp only []
+      have hw2 : WrapEquiv (some v) (some { w with chunk := none }) := by
+        refine ⟨hbw, ?_⟩
+        simp only []
+        rw [hv]
+        trivial
+      exact wrapNextG_tail ign wp hwp ext hE 2 1 b b' hb v _ hw2
+
+end CleanAux
+open CleanAux
+
+attribute [local irreducible] wrapProduce wrapLoop in
+theorem wrapNext_equivG (ign : Bool) (F : Fmt) (ext : Chunk → Except Err (Option (Bytes × Chunk)))
+    (hE : ExtOK ext) (b b' : Base) (hb : EquivG ign b b') (v w : Wrap) (hw : WrapEquiv (some v) (some w)) :
+    ERel ign (WNRel ign) (wrapNext F ext b v) (wrapNext F ext b' w) := by
+  rw [wrapNext_eq_gen, wrapLoop_eq_gen]
+  exact wrapNextG_equiv ign (wrapProduce F) (fun b b' v w hb hw => wrapProduce_equivG ign F b b' hb v w hw)
+    ext hE b b' hb v w hw
+
+
+/-! ### `step` and `drain` -/
+
+/-- `StEquiv` with equal `offCurr` in the strict mode -/
+def StEquivG (ign : Bool) (s t : St) : Prop := EquivG ign s.base t.base ∧ WrapEquiv s.wrap t.wrap
+
+/-- outputs agree; with `ign = true` a `fuel` outcome on either side is a wildcard -/
+def OutRel (ign : Bool) (o1 o2 : Out) : Prop :=
+  o1 = o2 ∨ (ign = true ∧ (o1 = .err .fuel ∨ o2 = .err .fuel))
+
+/-- results of one operation on equivalent objects: related outputs, and equivalent successor states
+unless an abnormal outcome was reported (the object is not used any further then) -/
+def StepRel (ign : Bool) (a b : St × Out) : Prop :=
+  OutRel ign a.2 b.2 ∧ ((∀ e, a.2 ≠ .err e) → (∀ e, b.2 ≠ .err e) → StEquivG ign a.1 b.1)
+
+namespace CleanAux
+
+theorem EquivG.weaken {ign : Bool} {s t : Base} (h : EquivG false s t) : EquivG ign s t :=
+  ⟨h.1, fun _ => h.2 rfl⟩
+
+theorem StepRel.err (ign : Bool) (s t : St) (e : Err) : StepRel ign (s, .err e) (t, .err e) :=
+  ⟨Or.inl rfl, fun h _ => absurd rfl (h e)⟩
+
+theorem StepRel.fuelL {ign : Bool} (hi : ign = true) (s : St) (b : St × Out) :
+    StepRel ign (s, .err .fuel) b :=
+  ⟨Or.inr ⟨hi, Or.inl rfl⟩, fun h _ => absurd rfl (h .fuel)⟩
+
+theorem StepRel.fuelR {ign : Bool} (hi : ign = true) (a : St × Out) (t : St) :
+    StepRel ign a (t, .err .fuel) :=
+  ⟨Or.inr ⟨hi, Or.inr rfl⟩, fun _ h => absurd rfl (h .fuel)⟩
+
+/-- `step` with the operations of the two objects abstracted -/
+def stepG (nr nc : Base → Except Err (Option Bytes × Base))
+    (wn1 wn2 : Base → Wrap → Except Err (Option Bytes × Base × Wrap))
+    (bf : Base → Except Err Base) (rp : Base → Nat → Nat → Except Err Base) (s : St) (x : Op) : St × Out :=
+  instReprOp.repr.match_1 (fun _ => St × Out) x
+    (fun _ =>
+      step.match_5 (fun _ => St × Out) s.wrap
+        (fun _ =>
+          step.match_1 (fun _ => St × Out) (nr s.base) (fun e => (s, Out.err e)) fun r b =>
+            ({ s with base := b }, outOf r))
+        fun w =>
+        step.match_3 (fun _ => St × Out) (wn1 s.base w) (fun e => (s, Out.err e)) fun r b w =>
+          ({ base := b, wrap := some w }, outOf r))
+    (fun _ =>
+      step.match_5 (fun _ => St × Out) s.wrap
+        (fun _ =>
+          step.match_1 (fun _ => St × Out) (nc s.base) (fun e => (s, Out.err e)) fun r b =>
+            ({ s with base := b }, outOf r))
+        fun w =>
+        step.match_3 (fun _ => St × Out) (wn2 s.base w) (fun e => (s, Out.err e)) fun r b w =>
+          ({ base := b, wrap := some w }, outOf r))
+    (fun m =>
+      step.match_5 (fun _ => St × Out) s.wrap (fun _ => ({ s with base := hint s.base m }, Out.done)) fun w =>
+        ({ s with wrap := some { w with bufWords := hintWords m w.bufWords } }, Out.done))
+    (fun _ =>
+      mkBase.match_1 (fun _ => St × Out) (bf s.base) (fun e => (s, Out.err e)) fun b =>
+        ({ base := b, wrap := s.wrap.map fun w => { w with chunk := none } }, Out.done))
+    fun k n =>
+    mkBase.match_1 (fun _ => St × Out) (rp s.base k n) (fun e => (s, Out.err e)) fun b =>
+      step.match_5 (fun _ => St × Out) s.wrap (fun _ => ({ s with base := b }, Out.done)) fun w =>
+        mkBase.match_1 (fun _ => St × Out) (bf b) (fun e => (s, Out.err e)) fun b =>
+          ({ base := b, wrap := some { w with chunk := none } }, Out.done)
+
+attribute [local irreducible] nextRecord nextChunk wrapNext beforeFirst resetPartition in
+theorem step_eq_gen (F : Fmt) :
+    step F = stepG (nextRecord F) (nextChunk F) (wrapNext F F.extractNext)
+      (wrapNext F (fun c => .ok (extractChunk c))) beforeFirst (resetPartition F) := by
+  delta step stepG
+  rfl
+
+theorem outOf_ne_err (r : Option Bytes) (e : Err) : outOf r ≠ .err e := by
+  cases r <;> simp [outOf]
+
+
+theorem EquivG.hint {ign : Bool} {s t : Base} (h : EquivG ign s t) (m : Nat) :
+    EquivG ign (hint s m) (hint t m) := by
+  obtain ⟨⟨h1, h2, h3, h4, h5, h6, h7⟩, h8⟩ := h
+  unfold DmlcModel.Split.hint
+  exact ⟨⟨h1, h2, h3, h4, congrArg (hintWords m) h5, h6, h7⟩, h8⟩
+
+theorem wrapEquiv_map_clear (a b : Option Wrap) (h : WrapEquiv a b) :
+    WrapEquiv (a.map fun w => { w with chunk := none }) (b.map fun w => { w with chunk := none }) := by
+  cases a with
+  | none =>
+    cases b with
+    | none => trivial
+    | some w => exact False.elim h
+  | some v =>
+    cases b with
+    | none => exact False.elim h
+    | some w => exact ⟨h.1, trivial⟩
+
+theorem stepG_equiv (ign : Bool) (nr nc : Base → Except Err (Option Bytes × Base))
+    (wn1 wn2 : Base → Wrap → Except Err (Option Bytes × Base × Wrap))
+    (bf : Base → Except Err Base) (rp : Base → Nat → Nat → Except Err Base) (s t : St)
+    (hnr : ∀ s t, EquivG ign s t → ERel ign (fun a b => a.1 = b.1 ∧ EquivG ign a.2 b.2) (nr s) (nr t))
+    (hnc : ∀ s t, EquivG ign s t → ERel ign (fun a b => a.1 = b.1 ∧ EquivG ign a.2 b.2) (nc s) (nc t))
+    (hwn1 : ∀ b b' v w, s.wrap = some v → t.wrap = some w → EquivG ign b b' → WrapEquiv (some v) (some w) →
+      ERel ign (WNRel ign) (wn1 b v) (wn1 b' w))
+    (hwn2 : ∀ b b' v w, s.wrap = some v → t.wrap = some w → EquivG ign b b' → WrapEquiv (some v) (some w) →
+      ERel ign (WNRel ign) (wn2 b v) (wn2 b' w))
+    (hbf : ∀ s t, EquivG ign s t → ERel false (EquivG ign) (bf s) (bf t))
+    (hrp : ∀ s t k n, s.files = t.files → s.bufWords = t.bufWords →
+      ERel false (EquivG false) (rp s k n) (rp t k n))
+    (h : StEquivG ign s t) (op : Op) :
+    StepRel ign (stepG nr nc wn1 wn2 bf rp s op) (stepG nr nc wn1 wn2 bf rp t op) := by
+  obtain ⟨hb, hw⟩ := h
+  unfold stepG
+  cases op with
+  | nextRec =>
+    simp only []
+    cases hs : s.wrap with
+    | none =>
+      cases ht : t.wrap with
+      | some w => rw [hs, ht] at hw; exact False.elim hw
+      | none =>
+        simp only []
+        rcases ERel.cases (hnr _ _ hb) with ⟨x, y, hx, hy, hR⟩ | ⟨e, hx, hy⟩ | ⟨hi, hx⟩ | ⟨hi, hy⟩
+        · rw [hx, hy]
+          obtain ⟨r1, b1⟩ := x
+          obtain ⟨r2, b2⟩ := y
+          obtain ⟨hr, hst⟩ := hR
+          simp only [] at hr hst
+          subst hr
+          exact ⟨Or.inl rfl, fun _ _ => ⟨hst, by rw [hs, ht] at hw; exact hw⟩⟩
+        · rw [hx, hy]; exact StepRel.err ign s t e
+        · rw [hx]; exact StepRel.fuelL hi s _
+        · rw [hy]; exact StepRel.fuelR hi _ t
+    | some v =>
+      cases ht : t.wrap with
+      | none => rw [hs, ht] at hw; exact False.elim hw
+      | some w =>
+        simp only []
+        have hw' : WrapEquiv (some v) (some w) := by rw [hs, ht] at hw; exact hw
+        rcases ERel.cases (hwn1 _ _ v w hs ht hb hw') with ⟨x, y, hx, hy, hR⟩ | ⟨e, hx, hy⟩ | ⟨hi, hx⟩ | ⟨hi, hy⟩
+        · rw [hx, hy]
+          obtain ⟨r1, b1, v1⟩ := x
+          obtain ⟨r2, b2, w1⟩ := y
+          obtain ⟨hr, hst, hwe⟩ := hR
+          simp only [] at hr hst hwe
+          subst hr
+          exact ⟨Or.inl rfl, fun _ _ => ⟨hst, hwe⟩⟩
+        · rw [hx, hy]; exact StepRel.err ign s t e
+        · rw [hx]; exact StepRel.fuelL hi s _
+        · rw [hy]; exact StepRel.fuelR hi _ t
+  | nextChunk =>
+    simp only []
+    cases hs : s.wrap with
+    | none =>
+      cases ht : t.wrap with
+      | some w => rw [hs, ht] at hw; exact False.elim hw
+      | none =>
+        simp only []
+        rcases ERel.cases (hnc _ _ hb) with ⟨x, y, hx, hy, hR⟩ | ⟨e, hx, hy⟩ | ⟨hi, hx⟩ | ⟨hi, hy⟩
+        · rw [hx, hy]
+          obtain ⟨r1, b1⟩ := x
+          obtain ⟨r2, b2⟩ := y
+          obtain ⟨hr, hst⟩ := hR
+          simp only [] at hr hst
+          subst hr
+          exact ⟨Or.inl rfl, fun _ _ => ⟨hst, by rw [hs, ht] at hw; exact hw⟩⟩
+        · rw [hx, hy]; exact StepRel.err ign s t e
+        · rw [hx]; exact StepRel.fuelL hi s _
+        · rw [hy]; exact StepRel.fuelR hi _ t
+    | some v =>
+      cases ht : t.wrap with
+      | none => rw [hs, ht] at hw; exact False.elim hw
+      | some w =>
+        simp only []
+        have hw' : WrapEquiv (some v) (some w) := by rw [hs, ht] at hw; exact hw
+        rcases ERel.cases (hwn2 _ _ v w hs ht hb hw') with ⟨x, y, hx, hy, hR⟩ | ⟨e, hx, hy⟩ | ⟨hi, hx⟩ | ⟨hi, hy⟩
+        · rw [hx, hy]
+          obtain ⟨r1, b1, v1⟩ := x
+          obtain ⟨r2, b2, w1⟩ := y
+          obtain ⟨hr, hst, hwe⟩ := hR
+          simp only [] at hr hst hwe
+          subst hr
+          exact ⟨Or.inl rfl, fun _ _ => ⟨hst, hwe⟩⟩
+        · rw [hx, hy]; exact StepRel.err ign s t e
+        · rw [hx]; exact StepRel.fuelL hi s _
+        · rw [hy]; exact StepRel.fuelR hi _ t
+  | hint m =>
+    simp only []
+    cases hs : s.wrap with
+    | none =>
+      cases ht : t.wrap with
+      | some w => rw [hs, ht] at hw; exact False.elim hw
+      | none => exact ⟨Or.inl rfl, fun _ _ => ⟨EquivG.hint hb m, by rw [hs, ht] at hw; exact hw⟩⟩
+    | some v =>
+      cases ht : t.wrap with
+      | none => rw [hs, ht] at hw; exact False.elim hw
+      | some w =>
+        have hw' : WrapEquiv (some v) (some w) := by rw [hs, ht] at hw; exact hw
+        exact ⟨Or.inl rfl, fun _ _ => ⟨hb, congrArg (hintWords m) hw'.1, hw'.2⟩⟩
+  | beforeFirst =>
+    simp only []
+    rcases ERel.cases (hbf _ _ hb) with ⟨x, y, hx, hy, hR⟩ | ⟨e, hx, hy⟩ | ⟨hi, _⟩ | ⟨hi, _⟩
+    · rw [hx, hy]
+      exact ⟨Or.inl rfl, fun _ _ => ⟨hR, wrapEquiv_map_clear _ _ hw⟩⟩
+    · rw [hx, hy]; exact StepRel.err ign s t e
+    · cases hi
+    · cases hi
+  | reset k n =>
+    simp only []
+    rcases ERel.cases (hrp _ _ k n hb.1.1 hb.1.2.2.2.2.1) with ⟨x, y, hx, hy, hR⟩ | ⟨e, hx, hy⟩ | ⟨hi, _⟩ | ⟨hi, _⟩
+    · rw [hx, hy]
+      simp only []
+      cases hs : s.wrap with
+      | none =>
+        cases ht : t.wrap with
+        | some w => rw [hs, ht] at hw; exact False.elim hw
+        | none => exact ⟨Or.inl rfl, fun _ _ => ⟨EquivG.weaken hR, by rw [hs, ht] at hw; exact hw⟩⟩
+      | some v =>
+        cases ht : t.wrap with
+        | none => rw [hs, ht] at hw; exact False.elim hw
+        | some w =>
+          simp only []
+          have hw' : WrapEquiv (some v) (some w) := by rw [hs, ht] at hw; exact hw
+          rcases ERel.cases (hbf x y (EquivG.weaken hR)) with ⟨x', y', hx', hy', hR'⟩ | ⟨e, hx', hy'⟩ | ⟨hi, _⟩ | ⟨hi, _⟩
+          · rw [hx', hy']
+            exact ⟨Or.inl rfl, fun _ _ => ⟨hR', hw'.1, trivial⟩⟩
+          · rw [hx', hy']; exact StepRel.err ign s t e
+          · cases hi
+          · cases hi
+    · rw [hx, hy]; exact StepRel.err ign s t e
+    · cases hi
+    · cases hi
+
+
+/-! ### `drain` -/
+
+/-- `drainGo` with `step F` abstracted -/
+def drainGoG (st : St → Op → St × Out) (pick : Nat → Bool) :
+    Nat → Nat → St → List Bytes → St × Except Err (List Bytes)
+  | 0, _, s, _ => (s, .error .fuel)
+  | fuel + 1, i, s, acc =>
+    drainGo.match_1 (fun _ => St × Except Err (List Bytes))
+      (st s (if pick i then .nextRec else .nextChunk))
+      (fun s b => drainGoG st pick fuel (i + 1) s (acc ++ [b])) (fun s => (s, .ok acc))
+      (fun s e => (s, .error e)) (fun s => (s, .error .fuel))
+
+theorem drainGoG_succ (st : St → Op → St × Out) (pick : Nat → Bool) (fuel i : Nat) (s : St)
+    (acc : List Bytes) :
+    drainGoG st pick (fuel + 1) i s acc =
+      match st s (if pick i then .nextRec else .nextChunk) with
+      | (s, .blob b) => drainGoG st pick fuel (i + 1) s (acc ++ [b])
+      | (s, .eof) => (s, .ok acc)
+      | (s, .err e) => (s, .error e)
+      | (s, .done) => (s, .error .fuel) := by
+  rw [drainGoG]; rfl
+
+attribute [local irreducible] step in
+theorem drainGo_eq_gen (F : Fmt) (pick : Nat → Bool) : drainGo F pick = drainGoG (step F) pick := by
+  delta drainGo drainGoG
+  rfl
+
+theorem drainGoG_equiv (ign : Bool) (st : St → Op → St × Out)
+    (hst : ∀ s t op, StEquivG ign s t → StepRel ign (st s op) (st t op)) (pick : Nat → Bool) :
+    ∀ (fuel i : Nat) (s t : St) (acc : List Bytes), StEquivG ign s t →
+      ERel ign (fun a b => a = b) (drainGoG st pick fuel i s acc).2 (drainGoG st pick fuel i t acc).2 := by
+  intro fuel
+  induction fuel with
+  | zero => intro i s t acc _; exact ERel.err _
+  | succ fuel ih =>
+    intro i s t acc h
+    rw [drainGoG_succ, drainGoG_succ]
+    have hs := hst s t (if pick i then .nextRec else .nextChunk) h
+    generalize st s (if pick i then .nextRec else .nextChunk) = A at hs ⊢
+    generalize st t (if pick i then .nextRec else .nextChunk) = B at hs ⊢
+    obtain ⟨s1, o1⟩ := A
+    obtain ⟨t1, o2⟩ := B
+    obtain ⟨ho, hstate⟩ := hs
+    simp only [] at ho hstate
+    rcases ho with heq | ⟨hi, hl | hr⟩
+    · subst heq
+      cases o1 with
+      | blob b =>
+        simp only []
+        exact ih (i + 1) s1 t1 (acc ++ [b]) (hstate (fun e h => by cases h) (fun e h => by cases h))
+      | eof => rfl
+      | err e => exact ERel.err _
+      | done => exact ERel.err _
+    · subst hl
+      exact ERel.fuel_left hi _
+    · subst hr
+      exact ERel.fuel_right hi _
+
+theorem drainFuel_eq (s t : St) (h : StEquiv s t) : drainFuel s = drainFuel t := by
+  obtain ⟨⟨h1, _, _, h4, _, h6, _⟩, hw⟩ := h
+  obtain ⟨sb, sw⟩ := s
+  obtain ⟨tb, tw⟩ := t
+  simp only [] at h1 h4 h6 hw
+  unfold drainFuel
+  simp only []
+  rw [h1, h4, h6.1]
+  cases sw with
+  | none =>
+    cases tw with
+    | none => rfl
+    | some w => exact False.elim hw
+  | some v =>
+    cases tw with
+    | none => exact False.elim hw
+    | some w =>
+      obtain ⟨vc, vb⟩ := v
+      obtain ⟨wc, wb⟩ := w
+      obtain ⟨_, hch⟩ := hw
+      simp only [] at hch
+      cases vc with
+      | none =>
+        cases wc with
+        | none => rfl
+        | some d => simp only [] at hch ⊢; rw [hch]; rfl
+      | some c =>
+        cases wc with
+        | none => simp only [] at hch ⊢; rw [hch]; rfl
+        | some d => simp only [] at hch ⊢; rw [hch.1]
+
+end CleanAux
+open CleanAux
+
+/-! ### the statements for the model functions -/
+
+attribute [local irreducible] nextLoop in
+theorem nextRecord_equivG (ign : Bool) (F : Fmt)
+    (hext : ∀ c d, ChunkEquiv c d → ERel false ExtRel (F.extractNext c) (F.extractNext d)) (s t : Base)
+    (h : EquivG ign s t) :
+    ERel ign (fun a b => a.1 = b.1 ∧ EquivG ign a.2 b.2) (nextRecord F s) (nextRecord F t) := by
+  unfold nextRecord
+  exact nextLoop_equivG ign F _ hext 3 s t h
+
+attribute [local irreducible] nextLoop in
+theorem nextChunk_equivG (ign : Bool) (F : Fmt) (s t : Base) (h : EquivG ign s t) :
+    ERel ign (fun a b => a.1 = b.1 ∧ EquivG ign a.2 b.2) (nextChunk F s) (nextChunk F t) := by
+  unfold nextChunk
+  exact nextLoop_equivG ign F _ extOK_extractChunk.resp 3 s t h
+
+/-- one operation on equivalent objects (bare or wrapped), both modes -/
+theorem step_equivG (ign : Bool) (F : Fmt) (hN : ExtractNoneIff F) (s t : St) (h : StEquivG ign s t) (op : Op) :
+    StepRel ign (step F s op) (step F t op) := by
+  have hE : ExtOK F.extractNext := extOK_of_none_iff _ hN
+  rw [step_eq_gen]
+  exact stepG_equiv ign (nextRecord F) (nextChunk F) (wrapNext F F.extractNext)
+    (wrapNext F (fun c => .ok (extractChunk c))) beforeFirst (resetPartition F) s t
+    (fun s t h => nextRecord_equivG ign F hE.resp s t h)
+    (fun s t h => nextChunk_equivG ign F s t h)
+    (fun b b' v w _ _ hb hw => wrapNext_equivG ign F _ hE b b' hb v w hw)
+    (fun b b' v w _ _ hb hw => wrapNext_equivG ign F _ extOK_extractChunk b b' hb v w hw)
+    (fun s t h => beforeFirst_equivG ign s t h)
+    (fun s t k n hf hb => resetPartition_core F s t k n hf hb)
+    h op
+
+/-- the bare object needs `ExtractRespects` only -/
+theorem step_equivG_bare (ign : Bool) (F : Fmt) (hF : ExtractRespects F) (s t : St) (h : StEquivG ign s t)
+    (hs : s.wrap = none) (op : Op) :
+    StepRel ign (step F s op) (step F t op) := by
+  rw [step_eq_gen]
+  exact stepG_equiv ign (nextRecord F) (nextChunk F) (wrapNext F F.extractNext)
+    (wrapNext F (fun c => .ok (extractChunk c))) beforeFirst (resetPartition F) s t
+    (fun s t h => nextRecord_equivG ign F (extRel_of_respects F hF) s t h)
+    (fun s t h => nextChunk_equivG ign F s t h)
+    (fun b b' v w hv _ _ _ => by rw [hs] at hv; cases hv)
+    (fun b b' v w hv _ _ _ => by rw [hs] at hv; cases hv)
+    (fun s t h => beforeFirst_equivG ign s t h)
+    (fun s t k n hf hb => resetPartition_core F s t k n hf hb)
+    h op
+
+theorem stEquivG_true (s t : St) (h : StEquiv s t) : StEquivG true s t :=
+  ⟨⟨h.1, fun hh => by cases hh⟩, h.2⟩
+
+theorem stEquivG_false (s t : St) (h : StEquiv s t) (hc : s.base.offCurr = t.base.offCurr) :
+    StEquivG false s t := ⟨⟨h.1, fun _ => hc⟩, h.2⟩
+
+/-- C05 simulation step, any two equivalent objects: unless one side reports the model's iteration bound
+(`fuel`, shown unreachable elsewhere), the outputs agree, and after a normal outcome the states are
+equivalent again -/
+theorem step_equiv (F : Fmt) (hN : ExtractNoneIff F) (s t : St) (h : StEquiv s t) (op : Op) :
+    (step F s op).2 = .err .fuel ∨ (step F t op).2 = .err .fuel ∨
+    ((step F s op).2 = (step F t op).2 ∧
+     ((∀ e, (step F s op).2 ≠ .err e) → StEquiv (step F s op).1 (step F t op).1)) := by
+  obtain ⟨ho, hst⟩ := step_equivG true F hN s t (stEquivG_true s t h) op
+  rcases ho with heq | ⟨_, hl | hr⟩
+  · right; right
+    refine ⟨heq, fun hne => ?_⟩
+    have := hst hne (by rw [← heq]; exact hne)
+    exact ⟨this.1.1, this.2⟩
+  · left; exact hl
+  · right; left; exact hr
+
+/-- strict version: if the two objects also agree on `offCurr` (true after `resetPartition`, and preserved),
+the outputs are equal in every case, including `fuel` -/
+theorem step_equiv_strict (F : Fmt) (hN : ExtractNoneIff F) (s t : St) (h : StEquiv s t)
+    (hc : s.base.offCurr = t.base.offCurr) (op : Op) :
+    (step F s op).2 = (step F t op).2 ∧
+    ((∀ e, (step F s op).2 ≠ .err e) →
+      StEquiv (step F s op).1 (step F t op).1 ∧ (step F s op).1.base.offCurr = (step F t op).1.base.offCurr) := by
+  obtain ⟨ho, hst⟩ := step_equivG false F hN s t (stEquivG_false s t h hc) op
+  rcases ho with heq | ⟨hi, _⟩
+  · refine ⟨heq, fun hne => ?_⟩
+    have := hst hne (by rw [← heq]; exact hne)
+    exact ⟨⟨this.1.1, this.2⟩, this.1.2 rfl⟩
+  · cases hi
+
+attribute [local irreducible] drainGo step in
+theorem drain_equivG (ign : Bool) (F : Fmt) (hN : ExtractNoneIff F) (s t : St) (h : StEquivG ign s t)
+    (pick : Nat → Bool) :
+    ERel ign (fun a b => a = b) (drain F pick s).2 (drain F pick t).2 := by
+  unfold drain
+  rw [drainFuel_eq s t ⟨h.1.1, h.2⟩, drainGo_eq_gen]
+  exact drainGoG_equiv ign (step F) (fun s t op h => step_equivG ign F hN s t h op) pick _ 0 s t [] h
+
+/-- equivalent objects deliver the same blobs to the end, unless one side reports `fuel` -/
+theorem drain_equiv (F : Fmt) (hN : ExtractNoneIff F) (s t : St) (h : StEquiv s t) (pick : Nat → Bool) :
+    (drain F pick s).2 = .error .fuel ∨ (drain F pick t).2 = .error .fuel ∨
+    (drain F pick s).2 = (drain F pick t).2 := by
+  rcases ERel.cases (drain_equivG true F hN s t (stEquivG_true s t h) pick) with
+    ⟨a, b, hx, hy, hR⟩ | ⟨e, hx, hy⟩ | ⟨_, hx⟩ | ⟨_, hy⟩
+  · right; right; rw [hx, hy, hR]
+  · right; right; rw [hx, hy]
+  · left; exact hx
+  · right; left; exact hy
+
+theorem drain_equiv_strict (F : Fmt) (hN : ExtractNoneIff F) (s t : St) (h : StEquiv s t)
+    (hc : s.base.offCurr = t.base.offCurr) (pick : Nat → Bool) :
+    (drain F pick s).2 = (drain F pick t).2 := by
+  rcases ERel.cases (drain_equivG false F hN s t (stEquivG_false s t h hc) pick) with
+    ⟨a, b, hx, hy, hR⟩ | ⟨e, hx, hy⟩ | ⟨hi, _⟩ | ⟨hi, _⟩
+  · rw [hx, hy, hR]
+  · rw [hx, hy]
+  · cases hi
+  · cases hi
 
 end DmlcModel.Split
